@@ -250,8 +250,11 @@ func runC04(c *Ctx) {
 		c04Set{keys: []string{"a/a/a", "a/a/b", "a/b/a", "b/a/a"}},
 		c04Set{keys: []string{"a/a", "b/b"}, deleted: []string{"a/b", "ab", "b/a"}},
 		c04Set{keys: []string{"aa", "ab"}, deleted: []string{"a", "b", "bb"}},
+		// keys whose base64 form contains the characters in which the standard and the URL alphabet differ
+		c04Set{keys: []string{"a~~~", "a~~~?", "a>>>", "a???", "ab"}},
+		c04Set{keys: []string{"a/~~~", "a/~~?", "a/>>>", "b~~~"}},
 	)
-	nsets := r.Pick(60, 600)
+	nsets := r.Pick(60, 4000)
 	for len(sets) < nsets {
 		n := 1 + rng.Intn(8)
 		perm := rng.Perm(len(baseKeys))
